@@ -576,4 +576,26 @@ theorem decode_sound {s : Bytes} {v : Val} (h : Json.decode s = some v) : JsonTe
     · cases h
   · cases h
 
+/-! ### non-vacuity -/
+
+-- `parseStringBody_sound`: the body `a\né"` is accepted, and is a `JStrBody`
+example : (parseStringBody 20 [0x61, 0x5C, 0x6E, 0x5C, 0x75, 0x30, 0x30, 0x65, 0x39, 0x22] []).isSome = true := by
+  decide
+example : JStrBody [0x61, 0x5C, 0x6E, 0x5C, 0x75, 0x30, 0x30, 0x65, 0x39, 0x22] :=
+  JStrBody.char 0x61 _ (by decide) (by decide) (by decide)
+    (JStrBody.esc 0x6E _ (by simp) (JStrBody.uni 0x30 0x30 0x65 0x39 _ rfl rfl rfl rfl JStrBody.close))
+-- a raw control character and an unknown escape `\x` are rejected
+example : parseStringBody 20 [0x09, 0x22] [] = none := by decide
+example : parseStringBody 20 [0x5C, 0x78, 0x22] [] = none := by decide
+-- `decode_sound`: `{"a": [1, null]}` decodes, hence is a JSON text
+example : JsonText [0x7B, 0x22, 0x61, 0x22, 0x3A, 0x20, 0x5B, 0x31, 0x2C, 0x20, 0x6E, 0x75, 0x6C, 0x6C, 0x5D, 0x7D] := by
+  have hs : (Json.decode [0x7B, 0x22, 0x61, 0x22, 0x3A, 0x20, 0x5B, 0x31, 0x2C, 0x20, 0x6E, 0x75, 0x6C, 0x6C, 0x5D, 0x7D]).isSome
+      = true := by decide +kernel
+  cases h : Json.decode [0x7B, 0x22, 0x61, 0x22, 0x3A, 0x20, 0x5B, 0x31, 0x2C, 0x20, 0x6E, 0x75, 0x6C, 0x6C, 0x5D, 0x7D] with
+  | none => rw [h] at hs; cases hs
+  | some v => exact decode_sound h
+-- `[1,]` and `{"a" 1}` are rejected
+example : Json.decode [0x5B, 0x31, 0x2C, 0x5D] = none := by decide +kernel
+example : Json.decode [0x7B, 0x22, 0x61, 0x22, 0x20, 0x31, 0x7D] = none := by decide +kernel
+
 end Jmes.JsonGrammar
